@@ -26,7 +26,7 @@ class P(sb.StreamProp):
     CLASSES = {'token', 'less', 'input', 'more', 'stream', 'phantom', 'fatal', 'hang'}
 
     def gen_scenario(self, rng):
-        return scenario.gen_scenario(rng, forbid=('vtrail',), want={'flavors': ['nr', 'nr', 'r', 'r', 'c99']})
+        return scenario.gen_scenario(rng, forbid=('vtrail',), want={'flavors': ['nr', 'nr', 'r', 'r', 'c99', 'cxx']})
 
     def gen_plan(self, rng, sc):
         return workload.gen_stream_plan(rng, sc, density=rng.choice([0.1, 0.3, 0.6]),
